@@ -95,8 +95,8 @@ def typeorder(t1, t2):
         ):
             # type[K] against an ordinary class that the metaclass of K
             # inherits from (an Enum class against Iterable)
-            (k,) = get_args(t1) or (object,)
-            if isinstance(k, type) and _subclasscheck(type(k), t2):
+            mc = _metaclass_of(t1)
+            if mc is not None and _subclasscheck(mc, t2):
                 return Order.LESS
         if not o2:
             order = typeorder(o1, t2)
@@ -145,10 +145,25 @@ def subclasscheck(t1, t2):
         # type[K] stands for a class that was passed as an argument: that
         # class is also an instance of its metaclass and of whatever the
         # metaclass inherits from (Iterable for an Enum class, ...)
-        (k,) = get_args(t1) or (object,)
-        if isinstance(k, type) and type(k) is not type:
-            return _subclasscheck(type(k), t2)
+        mc = _metaclass_of(t1)
+        if mc is not None:
+            return _subclasscheck(mc, t2)
     return False
+
+
+def _metaclass_of(t):
+    # The custom metaclass of K in type[K], if K is an ordinary class
+    (k,) = get_args(t) or (object,)
+    mc = type(k)
+    if (
+        isinstance(k, type)
+        and mc is not type
+        and not hasattr(mc, "__type_order__")
+        and not hasattr(mc, "__is_supertype__")
+        and not hasattr(mc, "__is_subtype__")
+    ):
+        return mc
+    return None
 
 
 def _subclasscheck(t1, t2):
